@@ -252,4 +252,112 @@ theorem reportPriority_roundtrip (ds : List (Vals × Bytes)) (h : ∀ d ∈ ds, 
   rw [List.append_nil] at this
   exact this
 
+/-! ## REPORT TARGET PORT GROUPS (length only header format) -/
+
+theorem tpgd_ok : C05.pairOK (tpgDescriptor, Gen.ReportTargetPortGroups_tpgd_bits) = true ∧
+    covers Gen.ReportTargetPortGroups_tpgd_bits tpgDescriptor = true := by decide +kernel
+
+theorem tport_id_mem : (⟨"relative_target_port_id", 2, 7, 16⟩ : DField) ∈ targetPortDescriptor.rel := by decide
+
+/-- a target port descriptor is two reserved bytes and the 2-byte RELATIVE TARGET PORT IDENTIFIER -/
+theorem tport_enc (p : Vals) (hr : InRangeD targetPortDescriptor.rel p) :
+    targetPortDescriptor.enc p = zeros 2 ++ intToBa (p "relative_target_port_id") 2 := by
+  have hlt : p "relative_target_port_id" < 2 ^ 16 := hr ⟨"relative_target_port_id", 2, 7, 16⟩ tport_id_mem
+  have hlen : (zeros 2 ++ intToBa (p "relative_target_port_id") 2).length = 4 := by simp [zeros]
+  apply baToInt_inj _ _ (enc_ok _ _) (BytesOK.append (BytesOK_zeros 2) (intToBa_ok _ _))
+  · rw [enc_length, hlen]; rfl
+  · have h1 : baToInt (targetPortDescriptor.enc p) = p "relative_target_port_id" := by
+      unfold Block.enc encodeD
+      rw [toBytes_eq_intToBa, baToInt_intToBa]
+      have : valueD targetPortDescriptor.len targetPortDescriptor.rel p = p "relative_target_port_id" * 2 ^ 0 + 0 := rfl
+      rw [this]
+      simp only [Nat.pow_zero, Nat.mul_one, Nat.add_zero]
+      apply Nat.mod_eq_of_lt
+      have : (2:Nat) ^ 16 ≤ 2 ^ (8 * targetPortDescriptor.len) := Nat.pow_le_pow_right (by decide) (by decide)
+      omega
+    rw [h1, baToInt_append, baToInt_zeros, baToInt_intToBa, Nat.mod_eq_of_lt (by simpa using hlt)]
+    simp
+
+theorem getList_last (d : PDict) (k : String) (l : List PV) (hfresh : ∀ kv ∈ d, kv.1 ≠ k) :
+    getList (d ++ [(k, PV.list l)]) k = .ok l := by
+  unfold getList PDict.get?
+  rw [List.find?_append]
+  have : d.find? (fun x => x.1 == k) = none := by
+    rw [List.find?_eq_none]
+    intro x hx
+    simpa using hfresh x hx
+  rw [this]
+  simp
+
+theorem tpgd_keys_fresh (v : Vals) : ∀ kv ∈ reported Gen.ReportTargetPortGroups_tpgd_bits v, kv.1 ≠ "target_ports" := by
+  intro kv hkv heq
+  have hm : kv.1 ∈ (reported Gen.ReportTargetPortGroups_tpgd_bits v).map (·.1) := List.mem_map.mpr ⟨kv, hkv, rfl⟩
+  rw [reported_keys, heq] at hm
+  revert hm
+  decide
+
+/-- the target port descriptors of one group, as the builder writes them -/
+theorem ports_rebuild (ps : List Vals) (h : ∀ p ∈ ps, InRangeD targetPortDescriptor.rel p) :
+    (ps.map portReported).mapM (fun p => do
+        let p ← Enc.asDict p
+        pure (zeros 2 ++ intToBa (← getInt p "relative_target_port_id") 2)) =
+      (.ok (ps.map targetPortDescriptor.enc) : Except PyErr (List Bytes)) := by
+  apply mapM_map_ok
+  intro p hp
+  simp only [portReported, Enc.asDict, bind, Except.bind, getInt, PDict.get?, List.find?_cons, beq_self_eq_true, Option.map_some, pure, Except.pure]
+  rw [tport_enc p (h p hp)]
+
+/-- one target port group descriptor as the parser reports it rebuilds to the descriptor -/
+theorem tpg_rebuild_one (g : Vals × List Vals) (h : TpgOK g) :
+    (do let gd ← Enc.asDict (tpgReported g)
+        let hdr ← encodeFrom gd Gen.ReportTargetPortGroups_tpgd_bits (zeros 8)
+        let ports ← getList gd "target_ports"
+        let ps ← ports.mapM (fun p => do
+          let p ← Enc.asDict p
+          pure (zeros 2 ++ intToBa (← getInt p "relative_target_port_id") 2))
+        pure (hdr ++ ps.flatten)) = (.ok (encTpg g) : Except PyErr Bytes) := by
+  have hOK := tpgd_ok.1
+  unfold C05.pairOK at hOK
+  simp only [Bool.and_eq_true] at hOK
+  have hk := wf_keys hOK.1
+  have henc : encodeFrom (reported Gen.ReportTargetPortGroups_tpgd_bits g.1 ++ [("target_ports", PV.list (g.2.map portReported))])
+      Gen.ReportTargetPortGroups_tpgd_bits (zeros 8) = .ok (tpgDescriptor.enc g.1) := by
+    have he := encodeFrom_reported tpgDescriptor _ tpgd_ok.1 tpgd_ok.2 g.1 h.1
+    unfold encodeFrom at he ⊢
+    rw [toConv_reported _ hk g.1] at he
+    rw [toConv_extra _ hk g.1 "target_ports" _ (by decide)]
+    exact he
+  unfold tpgReported
+  rw [show Enc.asDict (PV.dict (reported Gen.ReportTargetPortGroups_tpgd_bits g.1 ++ [("target_ports", PV.list (g.2.map portReported))]))
+      = .ok (reported Gen.ReportTargetPortGroups_tpgd_bits g.1 ++ [("target_ports", PV.list (g.2.map portReported))]) from rfl]
+  rw [bind_ok, henc, bind_ok, getList_last _ _ _ (tpgd_keys_fresh g.1), bind_ok, ports_rebuild g.2 h.2.2, bind_ok]
+  rfl
+
+/-- **bytes → dict → bytes** for REPORT TARGET PORT GROUPS (length only header format): every group with
+    its target ports, RETURN DATA LENGTH recomputed by the builder -/
+theorem rtpg_rebuild (gs : List (Vals × List Vals)) (h : ∀ g ∈ gs, TpgOK g) :
+    Enc.reportTargetPortGroups [("format_type", .int 0), ("target_port_group_descriptors", .list (gs.map tpgReported))] =
+      .ok (encRtpg gs) := by
+  unfold Enc.reportTargetPortGroups
+  have hg : getList [("format_type", PV.int 0), ("target_port_group_descriptors", PV.list (gs.map tpgReported))]
+      "target_port_group_descriptors" = .ok (gs.map tpgReported) := by
+    simp [getList, PDict.get?]
+  have hft : PDict.get? [("format_type", PV.int 0), ("target_port_group_descriptors", PV.list (gs.map tpgReported))] "format_type"
+      = some (.int 0) := by
+    simp [PDict.get?]
+  rw [hft]
+  simp only [Bool.false_eq_true, if_false]
+  rw [show (pure [] : Except PyErr Bytes) = Except.ok [] from rfl, bind_ok, hg, bind_ok]
+  rw [mapM_map_ok _ _ encTpg gs (fun g hgm => tpg_rebuild_one g (h g hgm)), bind_ok]
+  unfold encRtpg
+  simp only [List.nil_append, pure, Except.pure]
+  rw [encTpgs_length, toBytes_eq_intToBa]
+
+theorem rtpg_roundtrip (gs : List (Vals × List Vals)) (h : ∀ g ∈ gs, TpgOK g) (hfit : tpgBodyLen gs < 2 ^ 32) :
+    ∃ d, Dec.reportTargetPortGroups (encRtpg gs) = .ok (.dict d) ∧ Enc.reportTargetPortGroups d = .ok (encRtpg gs) := by
+  refine ⟨[("format_type", .int 0), ("target_port_group_descriptors", .list (gs.map tpgReported))], ?_, rtpg_rebuild gs h⟩
+  have := rtpg_decodes gs h hfit []
+  rw [List.append_nil] at this
+  exact this
+
 end C06
